@@ -75,6 +75,32 @@ UNITS += [
         /*@opens_only_with_matching_hot_marker*/ r is Ok <==> ((config.is_hot == Some(true)) == (be_hot is Some)),
 """),
 ]
+
+UNITS += [
+    Unit(name="correct_missing_files", file=RH, anchor="pub(crate) fn correct_missing_files<S>(", ret_name="r",
+         functions=["commands::repair::hotcold::correct_missing_files"],
+         rewrites=[
+             Rw("", "verr()", count=None, kind="err", why="RusticError construction dropped"),
+             Rw("fn correct_missing_files<S>(", "fn correct_missing_files(", sig=True, why="Repository<S> -> two-store stub"),
+             Rw("repo: &Repository<S>,", "repo: &VRepoHCR,", sig=True, why="Repository<S> -> two-store stub"),
+             Rw("is_relevant: impl Fn(&Id) -> bool,\n    dry_run: bool,", "dry_run: bool, w: &mut RepairHC,", sig=True, why="relevance filter (closure, used only inside get_missing_files) dropped; ghost record of what is copied"),
+             Rw("get_missing_files(repo, file_type, is_relevant)?", "vget_missing_files(repo, file_type)?", why="get_missing_files (closures, iterator adapters) -> stub returning arbitrary lists"),
+             Rw(r"repo\.progress_bytes\(&format!\([^)]*\)\)", "repo.vprogress()", regex=True, count=None, why="progress bar with formatted title -> stub"),
+             Rw("copy(missing_cold, file_type, repo_hot, &repo.be_cold, &p)?;", "let ghost mc = missing_cold@; vcopy_to_cold(missing_cold, file_type, &p, w)?;", why="copy hot -> cold (rayon) -> effect stub"),
+             Rw("copy(missing_hot, file_type, &repo.be_cold, repo_hot, &p)?;", "let ghost mh = missing_hot@; vcopy_to_hot(missing_hot, file_type, &p, w)?;", why="copy cold -> hot (rayon) -> effect stub: PRECONDITION 'warmed up'"),
+             Rw("warm_up_wait(repo, file_type, missing_hot.iter().copied())?;", "vwarm_up_wait(repo, file_type, &missing_hot, w)?;", why="warm_up_wait over an iterator -> stub"),
+         ],
+         contract="""
+    requires old(w).to_cold@ is None && old(w).to_hot@ is None,
+    ensures
+        // a run that succeeds (and is no dry run) has repaired BOTH directions: every file missing in the cold store was
+        // copied there, every file missing in the hot store was copied there (after the cold files were warmed up)
+        /*@both_directions_are_repaired*/ r is Ok && !dry_run ==>
+            (MISSING_COLD(*repo, file_type).len() > 0 ==> final(w).to_cold@ == Some(MISSING_COLD(*repo, file_type)))
+            && (MISSING_HOT(*repo, file_type).len() > 0 ==> final(w).to_hot@ == Some(MISSING_HOT(*repo, file_type)) && final(w).warmed@ == Some(MISSING_HOT(*repo, file_type))),
+        /*@dry_run_copies_nothing*/ dry_run ==> final(w).to_cold@ is None && final(w).to_hot@ is None,
+"""),
+]
 M = "backend::hotcold::verif_kani::"
 HC = "backend::hotcold::HotColdBackend::"
 KANI = [
@@ -95,7 +121,7 @@ KANI_ASSUMPTIONS = [
 ]
 META = {
     "not_covered": [
-        "repair hot/cold command beyond get_tree_packs: get_missing_files / correct_missing_files / copy (closures, iterator adapters, rayon)",
+        "repair hot/cold: get_missing_files (which files count as missing: closures, iterator adapters) and copy (rayon) -- stubs in the correct_missing_files unit",
         "warm-up call-site ordering inside restore / prune / check / repair index",
         "equivalence with a single-store repository beyond single backend calls",
     ],
